@@ -117,6 +117,84 @@ fn reencode(e: &TLVElement, w: &mut WriteBuf, steps: &mut usize, depth: usize) -
     }
 }
 
+/// What `tlv_iter()` over the content of the container `e` has to yield: the tag of every element in document order,
+/// nested containers as their start, their elements and "END".
+fn flat(e: &Value, out: &mut Vec<String>) {
+    for c in e["ch"].as_array().unwrap() {
+        out.push(format!("{:?}", tag_of(&c["tag"])));
+        if matches!(c["k"].as_str().unwrap(), "struct" | "array" | "list") {
+            flat(c, out);
+            out.push("END".into());
+        }
+    }
+}
+
+/// Accessors whose results are compared with the reference tree (valid encodings only): the flattening iterator, the
+/// generic re-encoder of a decoded element, the callback string writers.
+fn compare(tree: &Value, refb: &[u8]) -> Vec<String> {
+    let mut bad = Vec::new();
+    let el = TLVElement::new(refb);
+    let k = tree["k"].as_str().unwrap();
+    if matches!(k, "struct" | "array" | "list") {
+        let mut want = Vec::new();
+        flat(tree, &mut want);
+        match el.container() {
+            Ok(seq) => {
+                let got: Vec<String> = seq.tlv_iter().take(BUDGET).map(|t| match t {
+                    Ok(t) => if matches!(t.value, TLVValue::EndCnt) { "END".into() } else { format!("{:?}", t.tag) },
+                    Err(e) => format!("ERR {:?}", e.code()),
+                }).collect();
+                if got != want {
+                    bad.push(format!("tlv_iter yields {:?}, the container holds {:?}", got, want));
+                }
+            }
+            Err(e) => bad.push(format!("container(): {:?}", e.code())),
+        }
+    }
+    // TLVElement::to_tlv reproduces the element byte for byte (whatever the width of its length fields)
+    match el.tag() {
+        Ok(tag) => {
+            let mut out = vec![0u8; refb.len() + 64];
+            let mut w = WriteBuf::new(&mut out);
+            match el.to_tlv(&tag, &mut w) {
+                Ok(()) => if w.as_slice() != refb { bad.push(format!("TLVElement::to_tlv gives {:?}", &w.as_slice()[..w.as_slice().len().min(12)])); },
+                Err(e) => bad.push(format!("TLVElement::to_tlv: {:?}", e.code())),
+            }
+        }
+        Err(e) => bad.push(format!("tag(): {:?}", e.code())),
+    }
+    // the byte-iterator encoder (TLV::bytes_iter, what the iterator-based ToTLV implementations emit) of a leaf
+    if !matches!(k, "struct" | "array" | "list") {
+        match el.tlv() {
+            Ok(tlv) => {
+                let got: Vec<u8> = tlv.bytes_iter().take(refb.len() + 16).collect();
+                if got != refb { bad.push(format!("TLV::bytes_iter emits {} bytes {:?}... instead of the {} of the encoding", got.len(), &got[..got.len().min(12)], refb.len())); }
+            }
+            Err(e) => bad.push(format!("tlv(): {:?}", e.code())),
+        }
+    }
+    // the callback writers pick the shortest length field themselves
+    if matches!(k, "utf8" | "bytes") {
+        let v = bytes_of(&tree["v"]);
+        let minimal = tree["w"].as_u64().unwrap() == if v.len() <= 255 { 1 } else { 2 };
+        if minimal {
+            let tag = tag_of(&tree["tag"]);
+            let mut out = vec![0u8; refb.len() + 64];
+            let mut w = WriteBuf::new(&mut out);
+            let r = if k == "utf8" {
+                w.utf8_cb(&tag, |buf| { buf[..v.len()].copy_from_slice(&v); Ok(v.len()) })
+            } else {
+                w.str_cb(&tag, |buf| { buf[..v.len()].copy_from_slice(&v); Ok(v.len()) })
+            };
+            match r {
+                Ok(()) => if w.as_slice() != refb { bad.push(format!("{}_cb writes {:?}...", if k == "utf8" { "utf8" } else { "str" }, &w.as_slice()[..w.as_slice().len().min(8)])); },
+                Err(e) => bad.push(format!("cb writer: {:?}", e.code())),
+            }
+        }
+    }
+    bad
+}
+
 /// Call every public accessor; the results do not matter, only that each returns.
 fn poke(b: &[u8]) -> Result<(), String> {
     let e = TLVElement::new(b);
@@ -335,13 +413,14 @@ pub fn run(args: &[String]) -> i32 {
             };
             let panic2 = matches!(&r, Err(_));
             let spin2 = matches!(&r, Ok(Err(m)) if m == "SPIN");
-            let good = !panic && !spin && !panic2 && !spin2 && (!ref_ok || (real_ok && rt)) && (kind != "valid" || w_ok);
+            let cmp: Vec<String> = if kind == "valid" { catch(|| compare(&v["tree"], &b)).unwrap_or_else(|m| vec![format!("PANIC {m}")]) } else { Vec::new() };
+            let good = !panic && !spin && !panic2 && !spin2 && (!ref_ok || (real_ok && rt)) && (kind != "valid" || w_ok) && cmp.is_empty();
             if !good {
                 n_bad += 1;
             }
             if !good || kind == "valid" {
                 tr.ev(json!({"ev": "Tlv", "i": vi, "kind": kind, "bytes": b, "ref_ok": ref_ok, "real_ok": real_ok, "roundtrip": rt,
-                             "writer_ok": w_ok, "panic": panic || panic2, "spin": spin || spin2, "msg": format!("{pmsg}{rmsg}")}));
+                             "writer_ok": w_ok, "panic": panic || panic2, "spin": spin || spin2, "cmp": cmp, "msg": format!("{pmsg}{rmsg}")}));
             }
         }
     }
